@@ -6,11 +6,116 @@ def afterFirstT : List String → Option (List String)
   | [] => none
   | t :: r => if tokKind t = 't' then some r else afterFirstT r
 
+
+/-! ### whole responses / requests: oracle-only (the spec predicate is evaluated on what the real
+`server::Grpc` / `client::Grpc` produced; the "model" column echoes the observation) -/
+
+def afterFirstT' : List String → Option (List String)
+  | [] => none
+  | t :: r => if tokKind t = 't' then some r else afterFirstT' r
+
+def afterTok (t : String) : List String → List String
+  | [] => []
+  | x :: r => if x = t then r else afterTok t r
+
+def beforeTok (t : String) : List String → List String
+  | [] => []
+  | x :: r => if x = t then [] else x :: beforeTok t r
+
+def fieldOf (pfx : String) (obs : List String) : Option String :=
+  (obs.find? (fun t => t.startsWith pfx)).map (fun t => (t.drop pfx.length).toString)
+
+def encOfName (b : Bytes) : Option Enc :=
+  if b = Ascii.ofString "gzip" then some .gzip
+  else if b = Ascii.ofString "deflate" then some .deflate
+  else if b = Ascii.ofString "zstd" then some .zstd else none
+
+/-- frames + reference-decompressor table out of the observed `B … Z k …` tail -/
+def bodyOf (obs : List String) : List String × ZTab :=
+  let tail := afterTok "B" obs
+  let frames := beforeTok "Z" tail
+  let z := afterTok "Z" tail
+  let tab : ZTab := match z with
+    | k :: rest =>
+      (match nat? k with
+       | some k => (match parseZ k rest with | some (t, _) => t | none => [])
+       | none => [])
+    | [] => []
+  (frames.filter (fun t => !t.startsWith "R"), tab)
+
+/-- body clauses common to requests and responses -/
+def bodyClauses (ge : Option String) (frames : List String) (tab : ZTab) (expectMsgs : Option (List Bytes)) :
+    List (String × Bool) :=
+  let bytes := (obsData frames).flatten
+  let (frs, left) := Spec.Framing.split bytes
+  let announced : Option Enc := match ge with
+    | some g => if g = "-" then none else (unhexBare g).bind encOfName
+    | none => none
+  let flagsOk := frs.all (fun fp =>
+    if fp.1 = 0 then true
+    else if fp.1 = 1 then
+      (match announced with
+       | some e => magicOk e fp.2 && (payloadMsg tab fp).isSome
+       | none => false)
+    else false)
+  let msgs := frs.filterMap (payloadMsg tab)
+  [("body-is-whole-frames", left.isEmpty),
+   ("flag-1-only-with-announced-encoding-and-really-compressed", flagsOk),
+   ("payloads-are-the-messages-in-order",
+      match expectMsgs with
+      | some ms => msgs.length == frs.length && msgs == ms
+      | none => true)]
+
+def handleResp (case obs : List String) : String :=
+  match case with
+  | "resp" :: shape :: _send :: _acc :: early :: endc :: "MSGS" :: ms =>
+    let msgs := ms.filterMap unhexBare
+    let (frames, tab) := bodyOf obs
+    let nT := (frames.filter (fun t => tokKind t = 't')).length
+    let gs := fieldOf "gs" obs
+    let hasData := !(obsData frames).isEmpty
+    let trailersOnly := gs != some "-" && gs.isSome
+    let finalCode : Option String :=
+      if trailersOnly then gs else (frames.find? (fun t => tokKind t = 't')).map (fun t => (t.drop 1).toString)
+    let expectedCode := if early ≠ "-" then early else endc
+    let expectMsgs : List Bytes := if early ≠ "-" then [] else if shape = "u" then msgs.take 1 else msgs
+    verdict ([("no-panic", !obs.any isBad),
+              ("http-200", fieldOf "S" obs == some "200"),
+              ("content-type-application-grpc", fieldOf "ct" obs == some (hexBare (Ascii.ofString "application/grpc"))),
+              ("exactly-one-grpc-status",
+                 if trailersOnly then nT == 0 && !hasData
+                 else nT == 1 && (match afterFirstT' frames with | some r => r.all (fun t => t = "n") | none => false)),
+              ("status-is-the-handlers", finalCode == some expectedCode)]
+             ++ bodyClauses (fieldOf "ge" obs) frames tab (some expectMsgs))
+  | _ => "fail:bad-case"
+
+def handleReq (case obs : List String) : String :=
+  match case with
+  | "req" :: _send :: _acc :: origin :: path :: rest =>
+    let msg := ((afterTok "MSG" rest).head?).bind unhexBare
+    let (frames, tab) := bodyOf obs
+    let o := (unhexBare origin).getD []
+    let p := (unhexBare path).getD []
+    let expectPath := if o = [] ∨ o = Ascii.ofString "/" then p else o ++ p
+    verdict ([("no-panic", !obs.any isBad),
+              ("method-POST", fieldOf "M" obs == some "POST"),
+              ("http2", fieldOf "V" obs == some "HTTP/2.0"),
+              ("path", (fieldOf "P" obs).bind unhexBare == some expectPath),
+              ("content-type-application-grpc", fieldOf "ct" obs == some (hexBare (Ascii.ofString "application/grpc"))),
+              ("te-trailers", fieldOf "te" obs == some (hexBare (Ascii.ofString "trailers"))),
+              ("no-trailers-in-request-body", (frames.filter (fun t => tokKind t = 't')).isEmpty)]
+             ++ bodyClauses (fieldOf "ge" obs) frames tab (msg.map (fun m => [m])))
+  | _ => "fail:bad-case"
+
 /-- C03 verdict on an encoder body polled to exhaustion (and beyond): the data is a
 concatenation of well-formed frames, flag 1 exactly when a compressed payload (decompressible by
 the reference decompressor, right magic number) is carried, server: exactly one trailers frame
 with nothing after it, client: no trailers. -/
 def handle (case obs : List String) : String × String :=
+  match case with
+  | "resp" :: _ => (String.intercalate " " obs, handleResp case obs)
+  | "req" :: _ => (String.intercalate " " obs, handleReq case obs)
+  | _ =>
   match model case, parseEncCase case with
   | some m, some c =>
     let bytes := (obsData obs).flatten
